@@ -148,6 +148,16 @@ CHECKS["C05"] = dict(
     design="5/C05",
 )
 
+CHECKS["C06"] = dict(
+    technique="differential/metamorphic testing across processes: the same generated input formatted by persistent workers under different PYTHONHASHSEED values and heap layouts, and generated directory trees formatted sequentially vs in parallel under generated worker counts, file orders and injected per-file delays",
+    text="Part A: conflict-rich families, grammar programs and repository examples are formatted twice (caches cleared, seeded heap perturbation) in each "
+         "of k worker processes with different hash seeds; all outputs must be byte-identical. Part B: trees of modules are formatted by a sequential "
+         "reference and by format_files with 2..16 workers, shuffled/duplicated file lists and delays that permute completion order; trees and change "
+         "reports must be identical.",
+    note="Schedules are sampled, not enumerated; layout variation is approximated by heap perturbation and distinct processes; one seeded mutant (change flags misattributed across folders) is a known gap of the quick tier.",
+    design="5/C06",
+)
+
 NOT_YET = {}
 
 
